@@ -341,6 +341,10 @@ func c05(c *Ctx) {
 	validationInCriticalSection(c, "C05.3/validation-in-critical-section")
 
 	c05EverySnapshotValidated(c, "C05.3/every-snapshot-validated")
+	// a scan made inside a read-write transaction returns what the same scan returns outside of it: the recording
+	// wrapper and the plain store reader agree on what Reset restarts (analysis shared with C10.7)
+	readerRestart(c, "C05.2/key-readers-restart-alike", "embedded/store.(*storeKeyReader).", "storeKeyReader", []string{"Read", "ReadBetween"}, false, 2)
+	readerRestart(c, "C05.2/key-readers-restart-alike", "embedded/store.(*ongoingTxKeyReader).", "ongoingTxKeyReader", []string{"ReadBetween"}, false, 1)
 
 	// ---- C05.4 snapshot floor -----------------------------------------------------------------------------
 	r = "C05.4/mandatory-mvcc"
